@@ -131,6 +131,13 @@ class XorTop:
         self.lin, self.m = lin.split(m)[1], m
 
 
+class XorAbove:
+    """value == base + bit, for a base known to lie in [0, bit): base ^ bit with the bit above the base's width"""
+
+    def __init__(self, base, bit):
+        self.base, self.bit = base, bit
+
+
 def mask_low(x, m):
     """x & (2**m - 1)"""
     if isinstance(x, Lin):
@@ -447,11 +454,15 @@ class Interp:
                 m = b.bit_length()
                 if isinstance(a, ModU) and a.m == m:
                     return XorTop(a.lin, m)
+                if isinstance(a, ModU) and a.m < m:
+                    return XorAbove(a, b)
                 if isinstance(a, Lin):
                     lo, hi = a.range()
                     if lo is not None and lo >= 0 and hi <= (1 << m) - 1:
                         return XorTop(a, m)
             return self._unsup(fname, node)
+        if op is ast.Sub and isinstance(a, XorAbove) and isinstance(b, int) and b == a.bit:
+            return a.base
         if op is ast.Sub and isinstance(a, XorTop) and isinstance(b, int) and b == 1 << (a.m - 1):
             # ((u ^ s) - s) for u in [0, 2s) is u when u < s and u - 2s otherwise: the signed residue
             return SRes(a.lin, a.m)
